@@ -302,6 +302,7 @@ type iterHandler struct {
 }
 
 func (h *iterHandler) Next(env *object.Env) (object.PanObject, *object.PanErr) {
+	verifTick()
 	// call `(iter).next`
 	nextRet := builtInCallProp(env, object.EmptyPanObjPtr(),
 		object.EmptyPanObjPtr(), h.iter, nextSym)
